@@ -456,7 +456,9 @@ def kernels(tier, seed):
         solvers = ksmt.available()[:1]
     out = []
     for sname in solvers:
-        for r in ksmt.run_batch(sname, pre, queries, timeout_s=120):
+        # z3 5.1 decides every query in milliseconds; the older z3 and cvc5 are a cross-check with a short
+        # per-query limit (some regex-inclusion queries take them minutes: reported as inconclusive)
+        for r in ksmt.run_batch(sname, pre, queries, timeout_s=120 if sname == 'z3-5.1' else 10):
             kr = {'name': 'K1 ' + r['name'] + '@' + sname, 'status': r['status'], 'solver': sname, 'queries': 1,
                   'solver_time_s': r['solver_time_s'], 'bound': 'strings of any length over U+0000..U+2FFFF; '
                   'any integer; both booleans', 'detail': ''}
